@@ -181,6 +181,7 @@ func ordStr(i int) string {
 }
 
 func i256Exec(c *runCtx, ops []string) {
+	c.independent = true
 	for _, line := range ops {
 		o := parseOp(line)
 		c.count(o.name)
